@@ -213,7 +213,7 @@ func (m *monC02) Final(f *Flow) {
 	if f.AdoptFatal != nil && len(f.DamagedGen) == 0 {
 		w.Violate("C02", "fatal", warnKind(f.AdoptFatal), "AdoptSession failed on a stop-only history: %v", f.AdoptFatal)
 	}
-	if w.Inconcl != "" || f.QStartStep == 0 || f.AdoptFatal != nil {
+	if w.Inconcl != "" || f.QStartStep == 0 || f.AdoptFatal != nil || f.O.Closers > 0 {
 		return
 	}
 	if f.AdoptedGen(w.Gen) && !f.goalReached() && len(f.DamagedGen) == 0 {
